@@ -54,9 +54,9 @@ func maxN(tier string) int {
 
 func reps(tier string) int {
 	if tier == "thorough" {
-		return 4
+		return 6
 	}
-	return 8
+	return 16
 }
 
 // lo is one Limit/Offset call.
